@@ -63,9 +63,30 @@ def build_java():
             raise ToolError("javac failed:\n" + r.stdout + r.stderr)
 
 
+_PYENV = None
+
+
+def py_env():
+    """pyo3 links the harness against the `python3` found first on PATH; the same interpreter's library directory is put
+    on the loader path for build and run (nothing else is changed, so cargo sees the same build environment as bin/setup), so that a shell profile which re-orders PATH (conda) cannot leave the harness
+    unable to start (a tool error, never a verdict)."""
+    global _PYENV
+    if _PYENV is None:
+        _PYENV = {}
+        try:
+            r = subprocess.run(["python3", "-c", "import sys, sysconfig; print(sys.executable); print(sysconfig.get_config_var('LIBDIR') or '')"],
+                               capture_output=True, text=True, timeout=60)
+            exe, libdir = (r.stdout.strip().splitlines() + ["", ""])[:2]
+            if libdir:
+                _PYENV["LD_LIBRARY_PATH"] = libdir + (":" + os.environ["LD_LIBRARY_PATH"] if os.environ.get("LD_LIBRARY_PATH") else "")
+        except Exception:
+            pass
+    return _PYENV
+
+
 def build_harness():
     """cargo build --release of the harness; it path-depends on /repo so this always compiles /repo's current tree."""
-    env = dict(os.environ, CARGO_NET_OFFLINE="true")
+    env = dict(os.environ, CARGO_NET_OFFLINE="true", **py_env())
     t0 = time.time()
     hdir = harness_dir()
     r = subprocess.run(["cargo", "build", "--release", "--offline"], cwd=hdir, env=env, capture_output=True, text=True)
@@ -102,7 +123,7 @@ class HarnessHang(Exception):
 def run_harness(args, timeout=3600, stdin=None):
     exe = os.path.join(HARNESS if REPO == "/repo" else os.path.join(WORK, "harness-alt"), "target", "release", "vharness")
     r = subprocess.run([exe] + [str(a) for a in args], capture_output=True, text=True, timeout=timeout, input=stdin,
-                       env=dict(os.environ, VERIF_REPO_DIR=REPO))
+                       env=dict(os.environ, VERIF_REPO_DIR=REPO, **py_env()))
     if r.returncode == 3:
         for a in args:
             hp = str(a) + ".hang"
@@ -400,7 +421,7 @@ def repo_test_traces():
     raw = os.path.join(WORK, "repotests-%d.ndjson" % os.getpid())
     if os.path.exists(raw):
         os.remove(raw)
-    env = dict(os.environ, CARGO_NET_OFFLINE="true", RUSTFLAGS="--cfg rateslib_verif", RATESLIB_VERIF_TRACE=raw)
+    env = dict(os.environ, CARGO_NET_OFFLINE="true", RUSTFLAGS="--cfg rateslib_verif", RATESLIB_VERIF_TRACE=raw, **py_env())
     t0 = time.time()
     r = subprocess.run(["cargo", "test", "--offline", "--lib", "--manifest-path", os.path.join(REPO, "Cargo.toml"), "--target-dir", tdir, "--", "--test-threads", "4"],
                        env=env, capture_output=True, text=True, timeout=3000)
